@@ -14,6 +14,11 @@ def on_miss_fn(key):
     return ('made', key)
 
 
+def refuses(key):
+    """The 'partial' on_miss (a read-through to a backing store that lacks some keys) raises KeyError for these."""
+    return isinstance(key, str) and key[-1:] in '13579'
+
+
 def prefetch_pairs(key):
     """What a 'prefetching' on_miss stores into the cache itself before returning: the requested key
     and its neighbour (a page loader doing cache.update(page))."""
@@ -26,6 +31,7 @@ class Model(object):
         self.lru = lru
         self.has_on_miss = bool(has_on_miss)
         self.prefetch = has_on_miss == 'prefetch'
+        self.partial = has_on_miss == 'partial'
 
     def initial(self, pairs=()):
         st = ((), 0, 0, 0, ())
@@ -61,6 +67,9 @@ class Model(object):
         miss += 1
         if not self.has_on_miss:
             return (order, hit, miss, soft, log), KEYERR
+        if self.partial and refuses(k):
+            # on_miss was consulted and said KeyError: the lookup fails like any other miss
+            return (order, hit, miss, soft, log + (k,)), KEYERR
         v = on_miss_fn(k)
         st = (order, hit, miss, soft, log + (k,))
         if self.prefetch:
